@@ -113,7 +113,7 @@ class Family:
     def setup(self):
         raise NotImplementedError
 
-    def construct(self, w):
+    def construct(self, data):
         raise NotImplementedError
 
     def cfg(self, c):
@@ -127,13 +127,16 @@ class Family:
     def make_pool(self):
         pool = []
         for k in range(3):
-            m = self.construct(0)
+            m = self.construct(self.data0())
             self.perturb(m, k)
             pool.append({a: b.detach().clone() for a, b in m.state_dict().items()})
         return pool
 
-    def new(self, sd, w, training=False):
-        m = self.construct(w)
+    def data0(self):
+        return self.data[0] if self.has_data else None
+
+    def new(self, sd, data, training=False):
+        m = self.construct(data)
         m.load_state_dict(sd)
         m.train(training)
         return m
@@ -161,7 +164,7 @@ class ExactA(Family):
 
     def setup(self):
         r = self.rng
-        self.sizes = [5, 4, 5]
+        self.sizes = [5, 5, 5]
         self.data = []
         for n in self.sizes:
             X = torch.tensor(_pts(r, n))
@@ -171,8 +174,8 @@ class ExactA(Family):
         self.Xf = torch.tensor(_pts(r, 2, lo=2.2, hi=3.0))
         self.yf = torch.tensor([0.5, -0.25])
 
-    def construct(self, w):
-        X, y = self.data[w % len(self.data)]
+    def construct(self, data):
+        X, y = data
         lik = gpytorch.likelihoods.GaussianLikelihood()
         return _ExactModel(X.clone(), y.clone(), lik, gpytorch.means.ConstantMean(),
                            gpytorch.kernels.ScaleKernel(gpytorch.kernels.RBFKernel()))
@@ -204,8 +207,8 @@ class ExactB(ExactA):
         self.Xs = torch.tensor(_pts(r, 3, d=2))
         self.Xf = torch.tensor(_pts(r, 2, d=2, lo=2.2, hi=3.0))
 
-    def construct(self, w):
-        X, y = self.data[w % len(self.data)]
+    def construct(self, data):
+        X, y = data
         lik = gpytorch.likelihoods.FixedNoiseGaussianLikelihood(self.noise.clone(), learn_additional_noise=True)
         kern = gpytorch.kernels.MaternKernel(nu=1.5, ard_num_dims=2) + gpytorch.kernels.LinearKernel()
         return _ExactModel(X.clone(), y.clone(), lik, gpytorch.means.LinearMean(2), kern)
@@ -231,6 +234,15 @@ def sd_hash(sd):
     for k in sorted(sd):
         h.update(k.encode())
         h.update(sd[k].detach().cpu().contiguous().numpy().tobytes())
+    return h.hexdigest()
+
+
+def data_hash(data):
+    if data is None:
+        return ""
+    h = hashlib.sha1()
+    for t in data:
+        h.update(t.detach().contiguous().numpy().tobytes())
     return h.hexdigest()
 
 
@@ -284,11 +296,11 @@ class Oracle:
     def __init__(self, fam):
         self.fam, self.memo = fam, {}
 
-    def get(self, sd, sdh, w, c, training, kind):
-        key = (sdh, w % max(1, len(getattr(self.fam, "data", [0]))), c, training, kind)
+    def get(self, sd, sdh, data, c, training, kind):
+        key = (sdh, data_hash(data), c, training, kind)
         if key not in self.memo:
             try:
-                m = self.fam.new(sd, w, training)
+                m = self.fam.new(sd, data, training)
                 if kind == "backward":
                     self.memo[key] = ("ok", do_backward(self.fam, m))
                 else:
@@ -339,7 +351,8 @@ def run_history(fam, oracle, hist, trace, keep=False):
     torch.manual_seed(fam.seed)
     snaps = {0: fam.pool[0]}
     hashes = {0: sd_hash(fam.pool[0])}
-    model = fam.new(fam.pool[0], 0, False)
+    data = fam.data0()
+    model = fam.new(fam.pool[0], data, False)
     pv = dv = 0
     problems, statuses, values = [], [], []
     for pos, (o, tr) in enumerate(zip(hist, trace)):
@@ -357,8 +370,18 @@ def run_history(fam, oracle, hist, trace, keep=False):
             elif o == O_STEP:
                 do_step(fam, model)
             elif o == O_SETDATA:
-                X, y = fam.data[tr["dv"] % len(fam.data)]
-                model.set_train_data(X.clone(), y.clone(), strict=False)
+                # version k of the data: both / inputs only / targets only replaced (k mod 3 = 1 / 2 / 0)
+                k = tr["dv"]
+                X, y = fam.data[k % len(fam.data)]
+                if k % 3 == 1:
+                    data = (X, y)
+                    model.set_train_data(X.clone(), y.clone(), strict=False)
+                elif k % 3 == 2:
+                    data = (X, data[1])
+                    model.set_train_data(inputs=X.clone(), strict=False)
+                else:
+                    data = (data[0], y)
+                    model.set_train_data(targets=y.clone(), strict=False)
             elif o == O_LOAD:
                 model.load_state_dict(fam.pool[tr["pv"] % len(fam.pool)])
             elif o == O_FANT:
@@ -388,7 +411,7 @@ def run_history(fam, oracle, hist, trace, keep=False):
         c = o - O_PRED if kind == "post" else 0
         if kind in ("post", "prior") and err is not None and not model_err:
             # a prediction raised: history dependence only if a fresh model does not raise
-            fst, _ = oracle.get(snaps[pv], hashes[pv], dv, c, training, kind)
+            fst, _ = oracle.get(snaps[pv], hashes[pv], data, c, training, kind)
             if fst == "ok":
                 problems.append(dict(kind="exception", pos=pos, cfg=c, opkind=kind, err=err))
             continue
@@ -401,7 +424,7 @@ def run_history(fam, oracle, hist, trace, keep=False):
         if res is None or err is not None:
             continue
         # the property itself: a fresh model holding the CURRENT snapshot, same configuration
-        fst, fres = oracle.get(snaps[pv], hashes[pv], dv, c, training, kind)
+        fst, fres = oracle.get(snaps[pv], hashes[pv], data, c, training, kind)
         cur_ok = fst == "ok" and agree(res, fres)
         if cur_ok:
             if not tr["indep"]:
@@ -502,23 +525,29 @@ def hist_names(h):
 
 
 def shrink(fam, oracle, hist, coqfam, pkind):
-    """delta-debug: drop operations while a problem of the same kind remains at the last op"""
-    def fails(h):
-        tr = coq_traces("C03_shrink", coqfam, [h])[0]
-        probs, _, _ = run_history(fam, oracle, h, tr)
-        return any(p["kind"] == pkind for p in probs)
+    """delta-debug: drop operations while a problem of the same kind remains (the model traces of
+    all single-removal candidates are computed by one coqc call per round)"""
     cur = list(hist)
-    changed = True
-    while changed and len(cur) > 1:
-        changed = False
-        for i in range(len(cur) - 1):
-            cand = cur[:i] + cur[i + 1:]
+    for _ in range(40):
+        if len(cur) <= 1:
+            break
+        cands = [cur[:i] + cur[i + 1:] for i in range(len(cur) - 1)]
+        try:
+            traces = coq_traces("C03_shrink", coqfam, cands)
+        except Exception:
+            break
+        nxt = None
+        for h, tr in zip(cands, traces):
             try:
-                if fails(cand):
-                    cur, changed = cand, True
-                    break
+                probs, _, _ = run_history(fam, oracle, h, tr)
             except Exception:
-                pass
+                continue
+            if any(p["kind"] == pkind for p in probs):
+                nxt = h
+                break
+        if nxt is None:
+            break
+        cur = nxt
     return cur
 
 
@@ -526,8 +555,11 @@ def explain(fam, oracle, hist, coqfam):
     """which single-invalidation-removed variants of the model consult a stale entry at the end of hist"""
     names = []
     try:
-        for v in sorted(VARIANTS):
-            tr = coq_traces("C03_explain", coqfam, [hist], variant=v)[0]
+        vs = sorted(VARIANTS)
+        cases = ["(%d%%nat, %d%%nat, %s)" % (coqfam, v, C.z_list(hist)) for v in vs]
+        res = C.coq_run_cases("C03_explain", IMPORTS, RUN_DEF, cases, shard=len(cases))
+        for v, r in zip(vs, res):
+            tr = decode_trace(r, len(hist))
             if tr and not tr[-1]["indep"]:
                 names.append(VARIANTS[v])
     except Exception as e:
@@ -607,7 +639,9 @@ def report_failures(out, failures, seed):
         oracle = Oracle(fam)
         h = hist[:p["pos"] + 1] if p["pos"] >= 0 else hist
         small, why = h, []
-        if p["kind"] in ("stale", "unkeyed", "status", "exception"):
+        nshrunk = getattr(report_failures, "n", 0)
+        if p["kind"] in ("stale", "unkeyed", "status", "exception") and nshrunk < 6:
+            report_failures.n = nshrunk + 1
             try:
                 small = shrink(fam, oracle, h, fam.coq, p["kind"])
                 if p["kind"] == "stale":
